@@ -327,7 +327,7 @@ pub fn position_event(t: &Tables, start_fen: &str, startpos: bool, texts: &[Stri
         }
         Err(_) => {
             panicked = true;
-            (json!(null), vec![])
+            (json!({"panicked": true}), vec![])
         }
     };
     json!({
